@@ -27,10 +27,56 @@ def J(x):
     if isinstance(x, (set, frozenset)):
         return sorted(x)
     if isinstance(x, dict):
+        if x and all(isinstance(k, str) for k in x):
+            return {k: J(v) for k, v in x.items()}      # already a JSON object
         return [[k, J(v)] for k, v in x.items()]
     if isinstance(x, (tuple, list)):
         return [J(v) for v in x]
     raise ValueError(type(x))
+
+
+def V(x):
+    """canonical, kind-tagged result value (for families whose results have several shapes)"""
+    if x is None:
+        return {'kind': 'none'}
+    if isinstance(x, bool):
+        return {'kind': 'bool', 'b': x}
+    if isinstance(x, int):
+        return {'kind': 'int', 'n': x}
+    if isinstance(x, str):
+        return {'kind': 'int', 'n': B.symnum(x)}
+    if isinstance(x, (P.Pattern, Proved)):
+        return {'kind': 'term', 't': J(x)}
+    if isinstance(x, (set, frozenset)):
+        return {'kind': 'ints', 'ns': sorted(x)}
+    if isinstance(x, dict):
+        return {'kind': 'map', 'kv': [[k, J(v)] for k, v in x.items()]}
+    if isinstance(x, (tuple, list)):
+        if len(x) == 2 and isinstance(x[0], int) and isinstance(x[1], P.Pattern):
+            return {'kind': 'bind', 'n': x[0], 't': J(x[1])}
+        return {'kind': 'terms', 'ts': [J(v) for v in x]}
+    raise ValueError(type(x))
+
+
+_ALLN = None
+
+
+def all_notations():
+    global _ALLN
+    if _ALLN is None:
+        from proof_generation.proofs import definedness as D, kore as K, substitution as S
+        n = dict(NOTATIONS)
+        for x in (D.ceil, D.floor, D.subset, D.equals, D.functional) + tuple(K.KORE_NOTATIONS):
+            n[x.label] = x
+        for v in (0, 1, 2):
+            n[f'sorted-exists@{v}'] = K.sorted_exists(v)
+            n[f'kore-exists@{v}'] = K.kore_exists(v)
+            n[f'forall@{v}'] = S.forall(v)
+        for k in (0, 1, 2, 3):
+            n[f'nary@{k}'] = K.nary_app(P.Symbol('s7'), k)
+            n[f'cell@{k}'] = K.nary_app(P.Symbol('s8'), k, True)
+        _ALLN = n
+    return _ALLN
 
 
 def delta_of(d):
@@ -64,6 +110,16 @@ def do(c):
     if f == 'match':
         r = P.match([(B.to_py(a), B.to_py(b)) for a, b in c['eqs']])
         return None if r is None else dict(r)
+    if f == 'op':     # C12: one operation, result as kind-tagged value
+        return V(do(c['call']))
+    if f == 'notations':
+        return [[k, n.arity] for k, n in all_notations().items()]
+    if f == 'roundtrip':
+        N = all_notations()[c['label']]
+        applied = N(*[B.to_py(a) for a in c['args']])
+        m = N.matches(applied)
+        return {'applied': J(applied), 'matched': m is not None, 'args': [J(a) for a in (m or ())],
+                'rebuilt': J(N(*m)) if m is not None else J(applied)}
     if f == 'matches':
         return NOTATIONS[c['label']].matches(B.to_py(c['p']))
     if f == 'unwrap':
